@@ -447,5 +447,6 @@ func gen(r *rand.Rand, thorough bool, i int) []string {
 			break
 		}
 	}
+	genuine.Store(hashOps(g.lines), true)
 	return g.lines
 }
